@@ -17,7 +17,11 @@ theorem detached_array_child_leaves_parent_unchanged (fuel : Nat) (w : World) (x
     (hgone : AList.find? (w.idxOf hi.parent) x = none) :
     notifyParent (fuel + 1) w x cx = .ok (w, cx) ∨
     notifyParent (fuel + 1) w x cx = .ok ({ w with hinfo := AList.erase w.hinfo x }, cx) := by
-  sorry
+  rw [notifyParent]
+  simp only [hh, hc, hpa, hgone]
+  split
+  · left; rfl
+  · right; rfl
 
 /-- … and the same when the recorded slot now holds something else (another value or another
     container): the identity check precedes the write. -/
@@ -28,7 +32,11 @@ theorem replaced_slot_leaves_parent_unchanged (fuel : Nat) (w : World) (x : Slab
     (hidx : AList.find? (w.idxOf hi.parent) x = some idx) (hget : pa.get idx = .ok el) (hother : el.pay ≠ .ref x) :
     notifyParent (fuel + 1) w x cx = .ok (w, cx) ∨
     notifyParent (fuel + 1) w x cx = .ok ({ w with hinfo := AList.erase w.hinfo x }, cx) := by
-  sorry
+  rw [notifyParent]
+  simp only [hh, hc, hpa, hidx, hget]
+  split
+  · left; rfl
+  · right; first | rfl | (rw [if_pos hother])
 
 /-- MAP parent: the key is absent, or holds something else: same conclusion. -/
 theorem detached_map_child_leaves_parent_unchanged (fuel : Nat) (w : World) (x : SlabID) (hi : HInfo) (cx : Ctx)
@@ -38,7 +46,14 @@ theorem detached_map_child_leaves_parent_unchanged (fuel : Nat) (w : World) (x :
     (hslot : pm.get w.mcfg k = .error .keyNotFound ∨ ∃ k' el, pm.get w.mcfg k = .ok (k', el) ∧ el.pay ≠ .ref x) :
     notifyParent (fuel + 1) w x cx = .ok (w, cx) ∨
     notifyParent (fuel + 1) w x cx = .ok ({ w with hinfo := AList.erase w.hinfo x }, cx) := by
-  sorry
+  rw [notifyParent]
+  simp only [hh, hc, hpm, hk]
+  split
+  · left; rfl
+  · right
+    rcases hslot with h | ⟨k', el, h, hne⟩
+    · rw [h]
+    · rw [h]; first | rfl | (simp only; rw [if_pos hne])
 
 /-- Removing a child from an array parent forgets its index, so later mutations of the child fall
     under `detached_array_child_leaves_parent_unchanged`. -/
@@ -46,6 +61,73 @@ theorem remove_forgets_index (w : World) (p : SlabID) (i : Nat) (cx : Ctx) (old 
     (w' : World) (cx' : Ctx) (h : w.arrRemove p i cx = .ok (old, w', cx')) (hx : old.pay = .ref x)
     (hcont : (w.cont? x).isSome) :
     AList.find? (w'.idxOf p) x = none := by
-  sorry
+  unfold arrRemove at h
+  split at h
+  · rename_i a hpa
+    split at h
+    · cases h
+    · rename_i old1 a' cx1 hrem
+      simp only [bind, Except.bind] at h
+      have d1 : DomRel False w (w.setCont p (.arr a')) := DomRel.setCont hpa (fun hF => hF.elim)
+      have d2 : DomRel False (w.setCont p (.arr a'))
+          ((w.setCont p (.arr a')).shiftIdx p (fun j => if j > i then j - 1 else j)) := DomRel.shiftIdx _ _ _
+      split at h
+      · cases h
+      · rename_i r hnp
+        obtain ⟨w3, cx3⟩ := r
+        simp only at h
+        have d3 : DomRel False _ w3 := (notifyParent_domRel hnp).mono (fun hF => hF.elim)
+        have hsome : (w3.cont? x).isSome := (d1.trans (d2.trans d3)).keeps_isSome hcont
+        split at h
+        · cases h
+        · rename_i r2 hun
+          obtain ⟨old2, ov, w4, cx4⟩ := r2
+          simp only [pure, Except.pure] at h
+          cases h
+          obtain ⟨hpay, _, _, _, _, hcase⟩ := uninlineIfNeeded_ok hun
+          have hx1 : old1.pay = .ref x := by rw [← hpay]; exact hx
+          rcases hcase with ⟨_, _, _, _, hnone⟩ | ⟨x', c, hov, hp', _, _⟩
+          · rw [hnone x hx1] at hsome; cases hsome
+          · rw [hx1] at hp'; cases hp'; subst hov
+            simp [AList.find?_erase]
+  · cases h
+
+section NonVacuity
+/-! Same run as in C10 (`AtreeProofs/World/Scenario.lean`).  `mid11` is the state at the call of
+    `notifyParent` inside the removal of a value from the DETACHED child `X` (after `X` has been
+    removed from `R`): `X` still has its callback, would fit inline again, but its slot is gone. -/
+open Atree.Scenario
+
+/-- The hypotheses of `detached_array_child_leaves_parent_unchanged` are met at `mid11`, and the
+    second alternative of its conclusion is the one that happens (the callback is cleared). -/
+theorem detached_hyps_met :
+    ∃ (c : Cont) (pa : Arr),
+      AList.find? mid11.1.hinfo X = some ⟨R, none, 117, 0⟩ ∧ mid11.1.cont? X = some c ∧
+      mid11.1.cont? R = some (.arr pa) ∧ AList.find? (mid11.1.idxOf R) X = none ∧
+      notifyParent (3 + 1) mid11.1 X mid11.2 =
+        .ok ({ mid11.1 with hinfo := AList.erase mid11.1.hinfo X }, mid11.2) ∧
+      ¬ (c.isInlined = false ∧ c.inlinable 117 = false) := by
+  refine ⟨.arr (arrOf mid11.1 X), arrOf mid11.1 R, by decide, rfl, rfl, by decide, ?_, by decide⟩
+  rw [notifyParent_eq_notifyS]; rfl
+
+/-- what the operations return around the detachment: the removal hands back the 19-byte reference
+    and forgets the index; the later mutation of the detached child writes only the child
+    (`store X`), leaves `R` empty and clears the stale callback -/
+theorem detached_run_facts :
+    s9.1.arrRemove R 0 s9.2 = .ok s10 ∧ s10.1.pay = .ref X ∧ (s9.1.cont? X).isSome = true ∧
+    AList.find? (s10.2.1.idxOf R) X = none ∧
+    s10.2.1.arrRemove X 0 s10.2.2 = .ok s11 ∧
+    s11.1 = ⟨20, .val 1⟩ ∧ s11.2.2.eff = s10.2.2.eff ++ [.store X] ∧
+    (s11.2.1.cont? R).map Cont.storedElems = (s10.2.1.cont? R).map Cont.storedElems ∧
+    (s11.2.1.cont? R).map Cont.rootSize = (s10.2.1.cont? R).map Cont.rootSize ∧
+    s11.2.1.hinfo = [] ∧ s10.2.1.hinfo = [(X, ⟨R, none, 117, 0⟩)] := by
+  refine ⟨run_ok.2.2.2.2.2.2.2.1, by decide, by decide, by decide, run_ok.2.2.2.2.2.2.2.2,
+    by decide, by decide, by decide, by decide, by decide, by decide⟩
+
+/-- `remove_forgets_index` applies to the removal of `X` from `R` -/
+theorem remove_forgets_index_applies : AList.find? (s10.2.1.idxOf R) X = none :=
+  remove_forgets_index s9.1 R 0 s9.2 s10.1 X s10.2.1 s10.2.2 detached_run_facts.1 (by decide) (by decide)
+
+end NonVacuity
 
 end Atree.C11
